@@ -91,8 +91,14 @@ def run_histories(ctx, n, check=None):
         cs = tagged_state(r, 2, 7)
         if r.random() < 0.5:
             cs = (cs[0], cs[1], 0, cs[3])       # facing FORWARD: the only heading whose rotation is the identity (shares rows)
-        s = wire.mkstate(cs)
         area0 = rand_area(r, centered=0.8)
+        if r.random() < 0.3:
+            # fully aligned: the view is exactly the grid (same shape, agent on the anchor cell facing FORWARD) -- nothing to crop, pad or rotate
+            hh, half = r.randint(1, 5), r.randint(0, 2)
+            g = gen.rand_grid(r, hh, 2 * half + 1, floor_bias=0.5)
+            cs = (g, (hh - 1, half), 0, gen.rand_held(r))
+            area0 = (-(hh - 1), 0, -half, half)
+        s = wire.mkstate(cs)
         for _step in range(r.randint(2, 6)):
             k = r.random()
             if k < 0.6:
